@@ -231,6 +231,62 @@ def multitask_exact(S, n, t, m, pattern, policy, second_policy=None, cfg=None, t
         S.prove_eq(mll_t, ref, "multitask MLL under mask = log N(y_obs) / (number of observed values)")
 
 
+def exact_batched(S, n, m, pattern, cfg):
+    """batched exact GP whose batch elements miss DIFFERENT observations (policy 'fill', the one documented for per-element
+       patterns): element b of the posterior = conditional on element b's own observed points"""
+    pats = [[bool(int(c)) for c in row] for row in pattern.split("|")]
+    B = len(pats)
+    N = n + m
+    xs_rows, orders = [], []
+    for b in range(B):
+        obs = [i for i in range(n) if not pats[b][i]]
+        mis = [i for i in range(n) if pats[b][i]]
+        order = obs + mis
+        orders.append((obs, order))
+        lab_of = {tr: pos for pos, tr in enumerate(order)}
+        xs_rows.append([[float(lab_of[i])] for i in range(n)])
+    x = torch.tensor(xs_rows)
+    xs = labels(n, N, (B,))
+    y = S.randn(B, n)
+    Y = _sym_with_nan(S, y, "y", np.array(pats))
+    likelihood = gpytorch.likelihoods.GaussianLikelihood(batch_shape=torch.Size([B]))
+    Gs, Gc = S.factor("g", N, (B,))
+    table = torch.zeros(B, N, N)
+    model = StubGP(x, y, likelihood, TableKernel(table), make_mean("constant", (B,)))
+    for p in model.parameters():
+        p.requires_grad_(False)
+    declare_params(S, model.mean_module, "mean_")
+    declare_params(S, likelihood, "lik_")
+    with S.mode():
+        sig = as_sym_arr(SH.get(likelihood.noise)).reshape(B)
+        J = Gs @ np.swapaxes(Gs, -1, -2)
+        K = J.copy()
+        with torch.no_grad():
+            table.copy_(Gc @ Gc.transpose(-1, -2))
+        for b in range(B):
+            for i in range(n):
+                K[b, i, i] = K[b, i, i] - sig[b]
+                with torch.no_grad():
+                    table[b, i, i] -= sig[b].c
+        SH.put(table, K, check=True)
+        mall = as_sym_arr(SH.get(model.mean_module(labels(0, N, (B,)))))
+        model.eval(); likelihood.eval()
+        with gpytorch.settings.observation_nan_policy("fill"), settings_ctx(cfg):
+            out = S.must_not_raise("batched prediction under policy fill", lambda: model(xs))
+            mean_t, cov_t = out.mean, out.covariance_matrix
+    for b in range(B):
+        obs, order = orders[b]
+        no = len(obs)
+        Go = Gs[b][:no, :no]
+        Kso = K[b][n:, :no]
+        yo = np.array([Y[b, i] for i in obs], dtype=object)
+        r = (yo - mall[b][:no]).reshape(no, 1)
+        alpha = spd_solve(Go, r)
+        Bm = spd_solve(Go, Kso.T)
+        S.prove_eq(mean_t[b], (Kso @ alpha).reshape(-1) + mall[b][n:], "batch element %d (pattern %s): posterior mean = conditional on its own observed points" % (b, pattern.split("|")[b]))
+        S.prove_eq(cov_t[b], K[b][n:, n:] - Kso @ Bm, "batch element %d (pattern %s): posterior covariance = conditional on its own observed points" % (b, pattern.split("|")[b]))
+
+
 def likelihood_terms(S, N, pattern, policy, batch):
     """expected_log_prob / log_marginal with NaN observations: observed entries as usual, missing entries contribute nothing"""
     bs = (batch,) if batch else ()
@@ -308,6 +364,9 @@ def scenarios(tier, seed):
         add("likelihood_terms", N=3, pattern="000", policy=policy, batch=0)
         add("likelihood_terms", N=3, pattern="010|001", policy=policy, batch=2)
         add("likelihood_terms", N=2, pattern="10|00", policy=policy, batch=2)
+    for pat in (["01|10", "00|10"] if tier == "quick" else ["01|10", "00|10", "10|00", "011|100", "010|000", "001|010|100"]):
+        add("exact_batched", n=len(pat.split("|")[0]), m=1, pattern=pat, cfg={})
+    add("exact_batched", n=2, m=2, pattern="10|01", cfg={"fpv": True})
     mt = ["00|00", "01|00", "10|01", "00|11"] if tier == "quick" else ["00|00", "01|00", "10|00", "10|01", "01|01", "00|11", "11|01", "01|11", "011|000"]
     for pat in mt:
         t = len(pat.split("|")[0])
